@@ -236,8 +236,8 @@ theorem remeasure_free (t : Table) (hfree : t.AllFree) (ws : List Int) (hlen : w
 /-- No ratio column takes part: the table does not expand, or every ratio is `None`/0. -/
 def Table.NoRatio (t : Table) : Prop := t.expand = false ∨ ∀ c ∈ t.columns, c.ratio.getD 0 = 0
 
-theorem firstWidths_noRatio (t : Table) (h : t.NoRatio) (maxWidth : Int) :
-    t.firstWidths maxWidth = some (t.indexed.map (fun ci => orOne (t.measureColumn ci.2 ci.1 maxWidth).maximum)) := by
+theorem firstWidths_noRatio (fl : Flags) (t : Table) (h : t.NoRatio) (maxWidth : Int) :
+    t.firstWidths fl maxWidth = some (t.indexed.map (fun ci => orOne (t.measureColumn ci.2 ci.1 maxWidth).maximum)) := by
   unfold Table.firstWidths
   simp only [List.map_map]
   rcases h with h | h
@@ -253,9 +253,9 @@ theorem firstWidths_noRatio (t : Table) (h : t.NoRatio) (maxWidth : Int) :
       rfl
     · rfl
 
-theorem firstWidths_free (t : Table) (h : t.NoRatio) (hfree : t.AllFree) (maxWidth : Int) :
-    ∃ ws, t.firstWidths maxWidth = some ws ∧ ws.length = t.columns.length ∧ ∀ w ∈ ws, 1 ≤ w := by
-  refine ⟨_, firstWidths_noRatio t h maxWidth, by simp [indexed_length], ?_⟩
+theorem firstWidths_free (fl : Flags) (t : Table) (h : t.NoRatio) (hfree : t.AllFree) (maxWidth : Int) :
+    ∃ ws, t.firstWidths fl maxWidth = some ws ∧ ws.length = t.columns.length ∧ ∀ w ∈ ws, 1 ≤ w := by
+  refine ⟨_, firstWidths_noRatio fl t h maxWidth, by simp [indexed_length], ?_⟩
   intro w hw
   simp only [List.mem_map] at hw
   obtain ⟨ci, hci, rfl⟩ := hw
